@@ -31,7 +31,8 @@ theorem inv_fresh (S : Schema) (c : Nat) : InvVal S (fresh S c) := by
     (with two members of one group "the member set last" is not defined: out of the
     property's domain, DESIGN §8 D26) -/
 theorem inv_construct (S : Schema) (c : Nat) (kw : List (Nat × Val)) (hw : WfClass S c)
-    (h1 : AtMostOne (fieldsOf S c) (initSlots (fieldsOf S c) kw 0 (fieldsOf S c))) :
+    (h1 : AtMostOne (fieldsOf S c)
+      (initSlots (fieldsOf S c) (kw.map fun (p : Nat × Val) => (p.1, markEmpty S p.2)) 0 (fieldsOf S c))) :
     InvVal S (construct S c kw) := by
   unfold construct InvVal
   exact postInit_inv _ _ _ _ _ hw h1
